@@ -100,10 +100,15 @@ func vpRelations(e *env, r *ev.Run, iss, hold, other *party, replay bool, rc cas
 	}
 	created := time.Now().Add(-time.Minute)
 	vpExp := time.Now().Add(24 * time.Hour)
+	n := 0
 	for _, b := range cases {
 		for _, vf := range []string{"ldp_vp", "jwt_vp"} {
 			name := b.c.Name + "/" + vf
+			n++
 			if replay && rc.Doc != name {
+				continue
+			}
+			if !replay && !r.Mine(n) {
 				continue
 			}
 			vp, err := e.present(b.signer, vf, created, &vpExp, b.holder, b.creds...)
@@ -123,9 +128,16 @@ func vpRelations(e *env, r *ev.Run, iss, hold, other *party, replay bool, rc cas
 			if !ok && want && (b.c.Name[:6] == "honest") {
 				r.Violation("C01|converse|vp|"+b.c.Name[:len(b.c.Name)-7], fmt.Sprintf("honest presentation %s built by the node's wallet does not verify: %s", name, msg), caseC01{Clause: "vp-relations", Doc: name, Input: string(raw)})
 			} else if !ok && want {
-				r.Observation("acceptable-presentation-refused|"+b.c.Name, msg)
+				r.Observation("acceptable-presentation-refused|"+b.c.Name, "refused: "+firstWords(msg))
 			}
 		}
 	}
 	_ = credential.NutsOrganizationCredentialType
+}
+
+func firstWords(s string) string {
+	if i := len(s); i > 80 {
+		return s[:80]
+	}
+	return s
 }
